@@ -4,6 +4,8 @@
 //   VF_PART selects the classes compiled in: 0 = run-time classes + Zp_field_element<p>, 1 = small multi-field
 //   element templates, 2 = GMP multi-field element templates.
 #include "fields_common.hpp"
+#include <set>
+#include <map>
 
 #include <functional>
 #include <optional>
@@ -346,6 +348,45 @@ int main(int argc, char** argv) {
       vf::crash_ctx().where = r.name + " lo=" + std::to_string(lo) + " hi=" + std::to_string(hi) + " x=" + pl.x.get_str() + " y=" + pl.y.get_str() + " z=" + pl.z.get_str();
       r.run(pl, s);
       if (pl.once && r.setchar) r.setchar(pl, c.at("o").as_object(), s);
+    }
+    // History independence across re-initialisations (static state keyed by an argument, e.g. a memoised partial
+    // identity): for every ordered pair of intervals (A, B) and every sub-product Q that both know, the partial identity
+    // of Q is asked under A and then, as the first request after the change of characteristics, under B; both answers are
+    // compared with the tables TLC derived for A and for B.
+    if (!r.single) {
+      std::map<std::pair<long, long>, const bj::object*> once_case;
+      for (auto& cv : cases) {
+        const bj::object& c = cv.as_object();
+        if (!c.contains("o")) continue;
+        const bj::object& b = c.at("b").as_object();
+        long lo = b.at("lo").as_int64(), hi = b.at("hi").as_int64();
+        if (r.supports(lo, hi)) once_case.emplace(std::make_pair(lo, hi), &c);
+      }
+      auto ask = [&](const bj::object& c, const Z& q) {
+        const bj::object& b = c.at("b").as_object();
+        s.load(c);
+        Plan& pl = s.pl;
+        pl = Plan();
+        pl.lo = b.at("lo").as_int64(); pl.hi = b.at("hi").as_int64();
+        pl.P = fromJ(b.at("mod"));
+        pl.x = fromJ(b.at("x")); pl.y = fromJ(b.at("y")); pl.z = fromJ(b.at("z"));
+        pl.binary = false; pl.fused = false; pl.unary = false; pl.once = true;
+        pl.qi.push_back(q);
+        vf::crash_ctx().where = r.name + " re-initialisation lo=" + std::to_string(pl.lo) + " hi=" + std::to_string(pl.hi) + " q=" + q.get_str();
+        r.run(pl, s);
+      };
+      for (auto& A : once_case) for (auto& B : once_case) {
+        if (A.first == B.first) continue;
+        std::set<std::string> qa;
+        for (auto& e : A.second->at("o").as_object().at("pmi").as_array()) qa.insert(fromJ(e.as_object().at("q")).get_str());
+        for (auto& e : B.second->at("o").as_object().at("pmi").as_array()) {
+          Z q = fromJ(e.as_object().at("q"));
+          if (!qa.count(q.get_str())) continue;
+          ask(*A.second, q);
+          ask(*B.second, q);
+          ++ncases;
+        }
+      }
     }
     bj::object by;
     for (auto& p : s.by_sem) by[p.first] = p.second;
